@@ -15,7 +15,7 @@ def lutname(usb):
     import subprocess
     pb = max(12, min(20, 3 * usb // 2))
     return '_ZN5draco11RAnsDecoderILi%dEE24rans_build_look_up_tableEPKjj' % pb
-for usb, ns, tier in ((5, 3, 'quick'), (12, 3, 'thorough'), (5, 4, 'thorough')):
+for usb, ns, tier in ((5, 3, 'quick'), (12, 3, 'quick'), (18, 3, 'thorough'), (5, 4, 'thorough')):
     OBLIGATIONS.append(Ob('C08.table_N%d_%dsym' % (usb, ns), H, 'h_table', tier=tier, unwind=8, defines={'USB': usb, 'NSYM': ns}, max_alloc=16,
         stubs={lutname(usb): 'ret1'},
         bound='any valid table (sum = precision, last prob > 0) with <= %d symbols incl. zero entries; one trailing byte; stream version 2.2' % ns,
